@@ -58,7 +58,7 @@ theorem wrap_uaf_state :
     values that hold each other never are (the driver has no cycle collector: open known finding `cyclic-garbage`). -/
 theorem cycle_leaks :
     ∃ s, run St.init [.newarr 0 2, .aset 0 0 0, .free 0] = .ok s ∧ (s.roots.take nSlots).all Val.isNum = true ∧
-      H s 2 = 1 ∧ s.stats.numArrays = 1 ∧ (∃ cell, s.heap[2]? = some cell ∧ cell.live = true ∧ cell.ref = 1) := by
+      H s c0 = 1 ∧ s.stats.numArrays = 1 ∧ (∃ cell, s.heap[c0]? = some cell ∧ cell.live = true ∧ cell.ref = 1) := by
   refine ⟨_, rfl, ?_, ?_, ?_, ⟨_, rfl, rfl, rfl⟩⟩ <;> decide
 
 /-- the cycle object → mapping → function pointer → object is cut by destruct2 (it releases the variables of a
